@@ -18,7 +18,7 @@ from concurrent.futures import ThreadPoolExecutor
 import vf
 
 MUTANTS = ["response-is-request", "no-stream-events", "constant-name", "ignores-updates-only", "no-initial-value",
-           "rejected-update-writes", "get-ignores-mask", "get-writes"]
+           "rejected-update-writes", "get-ignores-mask", "get-writes", "other-delete-ends-streams"]
 SOFT = "pull-initial-value-not-received-in-time"
 METHOD_RE = re.compile(r"^func \(\w+ \*?(\w+)\) (Get|Update|Pull)(\w*)\(", re.M)
 
@@ -256,8 +256,10 @@ def run(ctx):
             d["sub_field_masked_gets"] = d.get("sub_field_masked_gets", 0) + bool(o["mask"]["nested"])
         elif o["op"] == "OpenPull":
             d["pulls_opened"] += 1
+        elif o["op"] == "Other":
+            d["other_record_deleted_or_created"] = d.get("other_record_deleted_or_created", 0) + 1
         d["stream_deliveries_checked"] += sum(1 for s in o["streams"] if s["awaited"])
-        nontrivial = (o["op"] == "Update") or (o["op"] == "Get" and not o["mask"]["nil"]) or any(s["awaited"] for s in o["streams"])
+        nontrivial = (o["op"] in ("Update", "Other")) or (o["op"] == "Get" and not o["mask"]["nil"]) or any(s["awaited"] for s in o["streams"])
         if nontrivial:
             ctx.distinct((o["tgt"], o["op"], o["code"], o["mask"], o["val"], changed, o["pre"]["v"] == o["post"]["v"],
                           [(s["uo"], s["fresh"], s["quiet"], s["opened"], len(s["msgs"])) for s in o["streams"]]))
@@ -265,7 +267,8 @@ def run(ctx):
     for o in obs[:1] + obs[len(obs) // 2: len(obs) // 2 + 2] + obs[-1:]:
         ctx.sample(o)
     ctx.cov["rule"] = ("histories generated by TLC from spec/StackGen.tla (Update(value index, update mask), Get(read mask), "
-                       "OpenPull(updates-only, name), CloseStream; 1-6 updates, 0-2 open streams, a quarter of the updates "
+                       "OpenPull(updates-only, name), CloseStream, Other(delete/create another record of the same collection, for the "
+                       "servers whose triple addresses one record: hail, publication, vending stock); 1-6 updates, 0-2 open streams, a quarter of the updates "
                        "repeat the previous value) replayed on every server of the stackx registry through "
                        "WrapApi(router{2 names -> WrapApi(server)}); values are 3-4 far-apart well-formed messages per resource "
                        "type plus values the business rules refuse, masks are sets of top-level paths (and a path naming no "
@@ -287,14 +290,14 @@ def run(ctx):
 MANIFEST = {
     "engine": "spec/Stack.tla + StackMC/StackGen/StackTrace.tla (TLC) + harness 'stackx'",
     "technique": "TLA+ relations between client observations of a register behind Wrap(router(Wrap(server))); TLC MC of a "
-                 "reference register with streams (relations hold, 8 seeded defects rejected); TLC-generated client histories "
+                 "reference register with streams (relations hold, 9 seeded defects rejected); TLC-generated client histories "
                  "replayed on every trait server found in the tree; TLC validates every recorded step",
     "text": "Stack.tla states what the property text demands of one client step given the unmasked Get before and after: "
             "a successful Update's response is the next Get; a masked Get is the projection of the unmasked one; a new Pull "
             "starts with the current value unless updates-only (an updates-only stream must not start with it); an Update whose "
             "response differs from the value before appears on every open stream with the response's value and the Pull "
             "request's name; a rejected (or crashing) Update leaves Get unchanged; a panic is never an answer. TLC checks these "
-            "relations on a reference machine whose server side is as free as the text leaves it and shows each of 8 seeded "
+            "relations on a reference machine whose server side is as free as the text leaves it and shows each of 9 seeded "
             "defects is rejected. TLC then prints random histories; stackx builds, per server of its registry (16 constructions "
             "of 14 server types in 13 packages, compared on every run with a scan of pkg/trait), the package's own "
             "WrapApi(NewApiRouter{2 names -> WrapApi(server)}) stack, drives it by full method name with requests built through "
